@@ -311,6 +311,10 @@ def gen_token(rng, pool):
 def gen_program_gen(rng, thorough=False):
     n = rng.choice([0, 1, 1, 2, 3]) if rng.random() < 0.3 else rng.randint(0, 20)
     pool = rng.sample(REG_POOL, rng.randint(2, 8))
+    if rng.random() < 0.04:
+        # scale: a long text over a large register file (dozens of distinct registers, repeated lines)
+        n = rng.randint(20, 60)
+        pool = ["%s%d" % (rng.choice(["r", "R", "x", "acc"]), k) for k in range(rng.randint(50, 120))]
     instrs, ws = [], []
     for _ in range(n):
         nops = rng.randint(1, 5)
